@@ -67,11 +67,14 @@ theorem lit_label {cfg : Cfg} {buf : Bytes} {fuel off n : Nat} (hb : byteAt buf 
 
 /-- the configuration never rejects what the strict decoder accepts: labels that can be written
 back, and fewer than 128 hops -/
-structure CfgAgree (cfg : Cfg) : Prop where
-  labelOk : ∀ a n, n ≤ 63 → cfg.labelBad a n = false
+structure CfgAgree (cfg : Cfg) (lok : Label → Prop) : Prop where
+  labelOk : ∀ l, lok l → cfg.labelBad (Utf8.isAscii l) (Utf8.reencodedLen l) = false
   hopOk : ∀ n, n < 128 → cfg.hopLimit n = false
 
-theorem libCfg_agree : CfgAgree libCfg := ⟨label_ok_of_short, fun _ h => hop_ok_of_lt h⟩
+/-- labels whose decoded text can be written back into a label -/
+def Reencodable (l : Label) : Prop := Utf8.reencodedLen l ≤ 63
+
+theorem libCfg_agree : CfgAgree libCfg Reencodable := ⟨fun _ h => label_ok_of_short _ _ h, fun _ h => hop_ok_of_lt h⟩
 
 /-- the library's loop found what the strict scan found -/
 def LitMatches (buf : Bytes) (off : Nat) (s : Strict.Scan) (l : Lit) : Prop :=
@@ -105,9 +108,9 @@ theorem LitMatches.cons {buf : Bytes} {off off' : Nat} {s : Strict.Scan} {r : Li
     subst h1
     exact ⟨poff, b0, b1, rfl, by omega, h3⟩
 
-theorem lit_of_scan {cfg : Cfg} (ha : CfgAgree cfg) (buf : Bytes) : ∀ (fuelS off fuel : Nat),
+theorem lit_of_scan {cfg : Cfg} {lok : Label → Prop} (ha : CfgAgree cfg lok) (buf : Bytes) : ∀ (fuelS off fuel : Nat),
     buf.length - off + 1 ≤ fuel →
-    (∀ l ∈ scanLabels (Strict.scan (buf.drop off) off fuelS), Utf8.reencodedLen l ≤ 63) →
+    (∀ l ∈ scanLabels (Strict.scan (buf.drop off) off fuelS), lok l) →
     LitMatches buf off (Strict.scan (buf.drop off) off fuelS) (lit cfg buf fuel off).1 := by
   intro fuelS
   induction fuelS with
@@ -143,7 +146,7 @@ theorem lit_of_scan {cfg : Cfg} (ha : CfgAgree cfg) (buf : Bytes) : ∀ (fuelS o
               rw [hs] at hl hrec
               simp only [scanLabels, List.mem_cons] at hl hrec
               have hlab := hl _ (Or.inl rfl)
-              rw [lit_label hb hlt (by omega) h1 (by rw [hrest]; exact ha.labelOk _ _ hlab), hrest]
+              rw [lit_label hb hlt (by omega) h1 (by rw [hrest]; exact ha.labelOk _ hlab), hrest]
               have := LitMatches.cons (label := rest.take b.toNat) (off := off) (off' := off + 1 + b.toNat)
                 (s := .fin ls e) (hrec (fun l hm => hl l (Or.inr hm))) (by omega)
               exact this
@@ -151,7 +154,7 @@ theorem lit_of_scan {cfg : Cfg} (ha : CfgAgree cfg) (buf : Bytes) : ∀ (fuelS o
               rw [hs] at hl hrec
               simp only [scanLabels, List.mem_cons] at hl hrec
               have hlab := hl _ (Or.inl rfl)
-              rw [lit_label hb hlt (by omega) h1 (by rw [hrest]; exact ha.labelOk _ _ hlab), hrest]
+              rw [lit_label hb hlt (by omega) h1 (by rw [hrest]; exact ha.labelOk _ hlab), hrest]
               have := LitMatches.cons (label := rest.take b.toNat) (off := off) (off' := off + 1 + b.toNat)
                 (s := .ptr ls k e) (hrec (fun l hm => hl l (Or.inr hm))) (by omega)
               exact this
@@ -241,9 +244,9 @@ theorem cacheGet_mem {c : List (Nat × WName)} {k : Nat} {v : WName} (h : cacheG
     · simp at h; subst h; exact lookup_mem ‹_›
   · simp at h
 
-theorem decodeAt_agrees {cfg : Cfg} (hc : CfgOK cfg) (ha : CfgAgree cfg) (buf : Bytes) :
+theorem decodeAt_agrees {cfg : Cfg} {lok : Label → Prop} (hc : CfgOK cfg) (ha : CfgAgree cfg lok) (buf : Bytes) :
     ∀ (fuelS off : Nat) (ls : WName) (e : Nat), Strict.decFrom buf fuelS off off = some (ls, e) →
-      (∀ l ∈ ls, Utf8.reencodedLen l ≤ 63) → ls.length ≤ 128 →
+      (∀ l ∈ ls, lok l) → ls.length ≤ 128 →
       ∀ (fuel depth : Nat) (seen : List Nat) (st : St), CacheOK buf st.cache → (∀ s ∈ seen, off ≤ s) →
         seen.length + fuelS ≤ 129 → depth ≤ seen.length + 1 → 131 ≤ fuel + depth →
         ∃ st' seen', decodeAt cfg buf fuel off depth seen st = (st', .ok (ls, e, seen')) ∧
@@ -486,8 +489,8 @@ theorem nameLen_ge (n : WName) (h : ∀ l ∈ n, l ≠ []) : 2 * n.length ≤ na
 
 /-! ### `_read_name` against `Strict.decName` -/
 
-theorem readName_agrees {cfg : Cfg} (hc : CfgOK cfg) (ha : CfgAgree cfg) (buf : Bytes) (st : St) (n : WName) (e : Nat)
-    (hdec : Strict.decName buf st.off = some (n, e)) (hlab : ∀ l ∈ n, Utf8.reencodedLen l ≤ 63)
+theorem readName_agrees {cfg : Cfg} {lok : Label → Prop} (hc : CfgOK cfg) (ha : CfgAgree cfg lok) (buf : Bytes) (st : St) (n : WName) (e : Nat)
+    (hdec : Strict.decName buf st.off = some (n, e)) (hlab : ∀ l ∈ n, lok l)
     (hcache : CacheOK buf st.cache) :
     ∃ st', readName cfg buf st = (st', .ok n) ∧ st'.off = e ∧ CacheOK buf st'.cache := by
   unfold Strict.decName at hdec
